@@ -193,6 +193,13 @@ func frontCorr(c *Ctx, stream, text, cleaned string, r parsed) {
 			c.OracleFail("grammar:acceptance/"+stream, map[string]any{"dsl": text, "cleaned": cleaned},
 				"the generated Go parser accepts this text without a syntax error but OpenFGAParser.g4 does not derive its token sequence", trunc(want, 300))
 			return true
+		case nParseErr == 0 && strings.HasPrefix(lean, "(r ") && lean != want:
+			// both accept, with different trees: the text is ambiguous in the grammar and the Go parser does not take
+			// the first alternative in grammar order, which is what a parser generated from OpenFGAParser.g4 predicts
+			// (and what the JS and Java packages, whose tables equal the grammar's, build) - "the same parse trees" fails
+			c.OracleFail("grammar:tree/"+stream, map[string]any{"dsl": text, "cleaned": cleaned, "go_tree": trunc(want, 2000), "grammar_tree": trunc(lean, 2000)},
+				"the generated Go parser accepts this text with a parse tree different from the derivation OpenFGAParser.g4 prescribes (first alternative in grammar order at every decision)", trunc(lean, 300))
+			return true
 		}
 		return false
 	})
